@@ -130,6 +130,12 @@ func (vm *VM) builtin(fr *frame, name string, args []Value, cc *ssa.CallCommon) 
 	case "copy":
 		d := args[0].(Slice)
 		es := sizeof(cc.Args[0].Type().Underlying().(*types.Slice).Elem())
+		if s2, ok := args[1].(Slice); ok && (d.lazy || s2.lazy) {
+			return vm.copyLazy(d, s2, es)
+		}
+		if d.lazy {
+			unsupported("copy from a string into a lazily sized buffer")
+		}
 		var sobj *Obj
 		var soff, sn int
 		switch s := args[1].(type) {
@@ -245,6 +251,11 @@ func (vm *VM) builtin(fr *frame, name string, args []Value, cc *ssa.CallCommon) 
 			vm.goPanicf("unsafe.Slice: len out of range")
 		}
 		es := sizeof(cc.Args[0].Type().Underlying().(*types.Pointer).Elem())
+		if p.off+n*es > p.obj.size && p.obj.lazyLen != nil {
+			if vm.decide(vm.ts.Ule(vm.ts.BV(64, uint64(p.off+n*es)), p.obj.lazyLen)) {
+				vm.ensure(p.obj, p.off+n*es)
+			}
+		}
 		if p.off+n*es > p.obj.size {
 			panic(pathEnd{"oob", fmt.Sprintf("unsafe.Slice of %d bytes at offset %d beyond object %s of %d bytes", n*es, p.off, p.obj.label, p.obj.size)})
 		}
@@ -546,4 +557,42 @@ func init() {
 		}
 		return Slice{obj: vm.newObj(0, "len-only"), symLen: n}
 	}
+}
+
+// copyLazy: copy where one side is a lazily sized buffer: the count is min(len(dst), len(src)).
+func (vm *VM) copyLazy(d, s Slice, es int) Value {
+	ts := vm.ts
+	if d.lazy && s.lazy {
+		n := vm.concreteInt(ts.Ite(ts.Ult(d.symLen, s.symLen), d.symLen, s.symLen))
+		vm.ensure(d.obj, d.off+n*es)
+		vm.ensure(s.obj, s.off+n*es)
+		if n > 0 {
+			vm.copyBytes(d.obj, d.off, s.obj, s.off, n*es)
+		}
+		return ts.BV(64, uint64(n))
+	}
+	if d.symLen != nil && !d.lazy || s.symLen != nil && !s.lazy {
+		unsupported("copy on a length-only slice")
+	}
+	var n int
+	if d.lazy {
+		// the concrete source fits entirely, or the destination is shorter (then its length is enumerated)
+		if vm.decide(ts.Ule(ts.BV(64, uint64(s.len)), d.symLen)) {
+			n = s.len
+		} else {
+			n = vm.concreteInt(d.symLen)
+		}
+		vm.ensure(d.obj, d.off+n*es)
+	} else {
+		if vm.decide(ts.Ule(ts.BV(64, uint64(d.len)), s.symLen)) {
+			n = d.len
+		} else {
+			n = vm.concreteInt(s.symLen)
+		}
+		vm.ensure(s.obj, s.off+n*es)
+	}
+	if n > 0 {
+		vm.copyBytes(d.obj, d.off, s.obj, s.off, n*es)
+	}
+	return ts.BV(64, uint64(n))
 }
